@@ -108,6 +108,18 @@ func runCase(env *vlib.Env, idx int, rep *vlib.Reporter) {
 	var sets []*setInfo
 	shape := ""
 	nextEon := int64(1)
+	addEonTo := func(s *setInfo, res string) {
+		e := nextEon
+		nextEon++
+		s.eons = append(s.eons, e)
+		_ = dbfix.InsertEon(ctx, node.Pool, e, e, s.activation, s.cfg)
+		switch res {
+		case "ok":
+			_ = dbfix.InsertDKGResult(ctx, node.Pool, e, s.keys.DKGResult(uint64(e), me))
+		case "fail":
+			_ = dbfix.InsertDKGResult(ctx, node.Pool, e, nil)
+		}
+	}
 	for c := int64(1); c <= 3; c++ {
 		s := &setInfo{cfg: c, state: states[r.Intn(len(states))], member: r.Chance(4, 5), activation: int64([]int{0, 3, 5, 6, 9, 40}[r.Intn(6)])}
 		s.keys = fixtures.NewEonKeys(env.Seed+uint64(c), 3, 2)
@@ -119,18 +131,7 @@ func runCase(env *vlib.Env, idx int, rep *vlib.Reporter) {
 			rep.Inconclusive(err.Error())
 			return
 		}
-		addEon := func(res string) {
-			e := nextEon
-			nextEon++
-			s.eons = append(s.eons, e)
-			_ = dbfix.InsertEon(ctx, node.Pool, e, e, s.activation, c)
-			switch res {
-			case "ok":
-				_ = dbfix.InsertDKGResult(ctx, node.Pool, e, s.keys.DKGResult(uint64(e), me))
-			case "fail":
-				_ = dbfix.InsertDKGResult(ctx, node.Pool, e, nil)
-			}
-		}
+		addEon := func(res string) { addEonTo(s, res) }
 		switch s.state {
 		case "noresult":
 			addEon("")
@@ -225,7 +226,74 @@ func runCase(env *vlib.Env, idx int, rep *vlib.Reporter) {
 	var observed [][]string
 	sentTriggers := 0
 	suppressedSeen := false
+	// forward hands a trigger to the real key share handler (persistent for the whole case) and
+	// judges what it sends: only for a set whose latest key generation has succeeded by now
+	forward := func(tr *epochkghandler.DecryptionTrigger, desc string) bool {
+		outs, _ := node.TriggerCore(ctx, tr.BlockNumber, toBytes(tr))
+		for _, o := range outs {
+			sm, ok := o.Msg.(*p2pmsg.DecryptionKeyShares)
+			if !ok {
+				continue
+			}
+			rep.Obs("shares_messages", 1)
+			var sids []string
+			for _, s := range sm.Shares {
+				sids = append(sids, string(s.IdentityPreimage))
+			}
+			found := false
+			for _, o := range observed {
+				if equalStr(o, sids) {
+					found = true
+				}
+			}
+			if !found {
+				rep.Violationf("shares-without-trigger", map[string]any{"case": desc}, "a key shares message was sent whose identity list equals no observed trigger")
+				return false
+			}
+			for _, set := range sets {
+				if uint64(set.cfg) != sm.Eon {
+					continue
+				}
+				if !set.healthy() || !set.member {
+					rep.Violationf("shares-for-set-without-successful-dkg", map[string]any{"case": desc, "set": set.cfg, "state": set.state, "member": set.member}, "key shares were contributed for keyper set %d whose latest key generation is in state %q (member=%t)", set.cfg, set.state, set.member)
+					return false
+				}
+				for _, sh := range sm.Shares {
+					if string(sh.Share) != string(set.keys.Share(me, sh.IdentityPreimage).Marshal()) {
+						rep.Violationf("wrong-share-contributed", map[string]any{"case": desc, "set": set.cfg}, "a contributed key share is not this keyper's share for the identity under set %d's key material", set.cfg)
+						return false
+					}
+				}
+				rep.Obs("shares_judged", int64(len(sm.Shares)))
+			}
+		}
+		return true
+	}
+	var delayed []*epochkghandler.DecryptionTrigger
 	for bi, b := range blocks {
+		// key generations restart or complete between blocks
+		for _, set := range sets {
+			switch {
+			case set.healthy() && r.Chance(1, 10):
+				res := []string{"", "fail"}[r.Intn(2)]
+				addEonTo(set, res)
+				set.state = map[string]string{"": "newerpending", "fail": "failed"}[res]
+				shape += fmt.Sprintf(" S%d->%s@%d", set.cfg, set.state, bi+1)
+				rep.Obs("dkg_restarts_during_history", 1)
+			case set.state == "failed" && len(set.eons) > 0 && r.Chance(1, 6):
+				addEonTo(set, "ok")
+				set.state = "restarted"
+				shape += fmt.Sprintf(" S%d->restarted@%d", set.cfg, bi+1)
+				rep.Obs("dkg_recoveries_during_history", 1)
+			}
+		}
+		// triggers that were still in the channel are handled now
+		for _, tr := range delayed {
+			if !forward(tr, fmt.Sprintf("%s late trigger before block %d", shape, bi+1)) {
+				return
+			}
+		}
+		delayed = nil
 		// registrations that become known before this block is processed
 		for _, id := range tids {
 			if !id.inserted && r.Chance(1, 4) {
@@ -277,28 +345,15 @@ func runCase(env *vlib.Env, idx int, rep *vlib.Reporter) {
 				ids = append(ids, string(id))
 			}
 			observed = append(observed, ids)
-			// forward to the real key share handler and middleware
-			outs, _ := node.TriggerCore(ctx, tr.BlockNumber, toBytes(tr))
-			for _, o := range outs {
-				sm, ok := o.Msg.(*p2pmsg.DecryptionKeyShares)
-				if !ok {
-					continue
-				}
-				rep.Obs("shares_messages", 1)
-				var sids []string
-				for _, s := range sm.Shares {
-					sids = append(sids, string(s.IdentityPreimage))
-				}
-				found := false
-				for _, o := range observed {
-					if equalStr(o, sids) {
-						found = true
-					}
-				}
-				if !found {
-					rep.Violationf("shares-without-trigger", map[string]any{"case": desc}, "a key shares message was sent whose identity list equals no observed trigger")
-					return
-				}
+			// forward to the real key share handler and middleware: at once, or (the trigger channel
+			// is asynchronous) only after the next block's state changes
+			if r.Chance(1, 3) {
+				delayed = append(delayed, tr)
+				rep.Obs("triggers_handled_late", 1)
+				continue
+			}
+			if !forward(tr, desc) {
+				return
 			}
 		}
 		// suppressed candidates (non-vacuity bookkeeping)
